@@ -83,7 +83,10 @@ PROPS = {
                     "ProcessCommand::validate is checked against the conjunction of the configured limits written from the property "
                     "statement for EVERY ProcessCaps value, with the accepted spec required to BE the builder's own "
                     "program/args/cwd/env/stdin (pointer identity: same count, order, bytes); builder operations, clone_into/promote "
-                    "byte preservation and the host-policy gate (ProcessDenied before validate and before any spawn) by bounded harnesses."),
+                    "byte preservation and the host-policy gate (ProcessDenied before validate and before any spawn) by bounded harnesses.  RESIDENCE "
+                    "(Verus, unit cmd_store): every string the script hands to a command builder method (arg, cwd, env key/value, stdin_text) is "
+                    "allocated in the persistent arena, never the frame arena that is reset per iteration/return -- eval_required_string and "
+                    "eval_process_command_call_mut extracted from src/runtime.rs with region-typed allocation shims."),
         "not_covered": ("that std::process::Command execs the program directly without a shell, and its argument/environment "
                         "marshalling (documented std behaviour, assumed); commands with more than 2 arguments / 2 environment pairs "
                         "are covered by uniformity of the loops, not by enumeration."),
@@ -141,11 +144,12 @@ PROPS = {
                     "Value::return_to_pool are checked by Kani against contracts over content and residence -- same content, not in the frame "
                     "arena, never a view of a pool slot it does not own, old slot returned exactly once -- with the string pool present through "
                     "its contracts (dealloc havocs the slot's bytes, so a use-after-return is visible) and the frame poisoned after each call; "
-                    "Arena::reset / contains_ptr and the PoolSet contracts they rest on are proved under C11/C12."),
+                    "Arena::reset / contains_ptr and the PoolSet contracts they rest on are proved under C11/C12.  Strings stored into a process_command "
+                    "builder are persistent-arena allocations (Verus, unit cmd_store, region typing of eval_process_command_call_mut)."),
         "not_covered": ("that every store site of the 1900-line evaluator goes through one of these primitives with the right mark (a whole-"
                         "evaluator frame argument); arrays and host values (array storage read back from arena memory is outside CBMC's "
-                        "reach: > 5 min per harness); relocate_return_value; loop/call reset points. Known open defects there are listed in "
-                        "DESIGN.md section 6 (returning a host value; growing a parameter array inside a loop in the callee)."),
+                        "reach: > 5 min per harness); relocate_return_value; loop/call reset points. The defects found there (returning a host value; growing a "
+                        "parameter array inside a loop in the callee) were repaired (265c738, 0c46f42) but are not decided by an obligation."),
         "trusted_base": [KANI_TRUST, OS_TRUST, "PoolSet::{alloc_str, contains, dealloc} used through contract stubs whose clauses are proved for the real PoolSet under C12"],
     },
     "C05": {
